@@ -53,9 +53,13 @@ def _scenario(draw, tier):
             else:
                 ops.append(["remove_bounds", i])
         else:
-            k = draw(st.sampled_from(["steps", "steps", "steps", "probe", "revers", "restart"]))
+            k = draw(st.sampled_from(["steps", "steps", "steps", "probe", "revers", "restart", "scribble"]))
             if k == "steps":
                 ops.append(["advance", draw(st.sampled_from([1, 2, 5, 12]))])
+            elif k == "scribble":
+                # the caller re-uses the start array it passed (fills it with values far outside the bounds), then goes on
+                ops.append(["scribble"])
+                ops.append(["advance", draw(st.sampled_from([1, 2, 5]))])
             elif k == "probe":
                 ops.append(["probe", draw(st.integers(0, 2 ** 16))])
             elif k == "restart":
@@ -372,6 +376,13 @@ def execute(sc):
                         break
                     sync_generators(h.chain, old_chain)
                     stats["fault_crash_restart"] += 1
+                elif name == "scribble":
+                    st_arr = h.inputs["start"]
+                    if isinstance(st_arr, np.ndarray) and h.cfg.get("bounds") is not None:
+                        hi_ = np.asarray(h.cfg["bounds"][1], dtype=float)
+                        wd_ = hi_ - np.asarray(h.cfg["bounds"][0], dtype=float)
+                        st_arr[...] = np.broadcast_to(hi_ + 5.0 * wd_ + 1.0, st_arr.shape).astype(st_arr.dtype)
+                        stats["fault_caller_overwrites_start_array"] += 1
                 elif name == "probe":
                     armed[0] = False
                     probe_bounds(V, h, L, op[1], stats)
